@@ -198,6 +198,53 @@ def runPlace (kv : KV) : String :=
         s!"{showElem v.grp v.base}({String.intercalate "," (f.dims.map showOptElem)})[{String.intercalate "," (f.refs.map showOut)}]"
       "ok " ++ String.intercalate ";" (vs.map one)
 
+def parsePaths (s : String) : Option (List Path) :=
+  if s == "-" then some [] else (s.splitOn ";").mapM parsePath
+
+/-- `C11.cv fg=/g1/g2 dg=/ apex=0|1 cs=/g1;/g1/g2|- old=0|1` → `some:/g1/g2` | `none`. -/
+def runCv (kv : KV) : String :=
+  match (do
+    let fg ← parsePath (← kv.get? "fg")
+    let dg ← parsePath (← kv.get? "dg")
+    let apex ← parseBool (← kv.get? "apex")
+    let cs ← parsePaths (← kv.get? "cs")
+    let old ← parseBool (← kv.get? "old")
+    some (fg, dg, apex, cs, old)) with
+  | none => "bad-op"
+  | some (fg, dg, apex, cs, old) =>
+    match (if old then findCoordVarOld else findCoordVar) apex fg dg cs with
+    | some q => "some:" ++ showPath q
+    | none => "none"
+
+def parsePairs (s : String) : Option (List (Name × Name)) :=
+  if s == "-" then some [] else
+  (s.splitOn ",").mapM (fun t => match t.splitOn ">" with
+    | [k, v] => some (nm k, nm v)
+    | _ => none)
+
+def parseGA (s : String) : Option (List (Name × Option Name)) :=
+  if s == "-" then some [] else
+  (s.splitOn ",").mapM (fun t => match t.splitOn ">" with
+    | [k, v] => some (nm k, if v == "-" then none else some (nm v))
+    | _ => none)
+
+def showPairs (l : List (Name × Name)) : String :=
+  let xs := (l.map (fun kv => str kv.1 ++ ">" ++ str kv.2)).toArray.qsort (· < ·) |>.toList
+  "[" ++ String.intercalate "," xs ++ "]"
+
+/-- `C11.gattr grp=/g0 glob=comment,history|- props=a>v,… ga=a>-,b>w|-`. -/
+def runGattr (kv : KV) : String :=
+  match (do
+    let grp ← parsePath (← kv.get? "grp")
+    let g ← kv.get? "glob"
+    let p ← parsePairs (← kv.get? "props")
+    let ga ← parseGA (← kv.get? "ga")
+    some (grp, (if g == "-" then [] else parseNames g), p, ga)) with
+  | none => "bad-op"
+  | some (grp, g, p, ga) =>
+    let w := writeProps grp g p ga
+    s!"glob={showPairs w.glob} grp={showPairs w.grp} var={showPairs w.var}"
+
 def run (sub : String) (kv : KV) : String :=
   match sub with
   | "res" => runRes kv
@@ -205,6 +252,8 @@ def run (sub : String) (kv : KV) : String :=
   | "vis" => runVis kv
   | "grp" => runGrp kv
   | "place" => runPlace kv
+  | "cv" => runCv kv
+  | "gattr" => runGattr kv
   | _ => "bad-op"
 
 end Cfdm.Driver.C11
